@@ -9,8 +9,13 @@ def run(rep: Report, repo: Repo, tier: str) -> None:
     rep.assume("pathspec GitWildMatch semantics (bare name matches at any depth, trailing slash = directory only)",
                "os.walk(topdown=True) honours in-place pruning of the directory list it yielded",
                "list.remove during iteration shifts the remaining elements left (the element after the removed one is skipped)")
-    fsrules.rule_no_mutation_while_iterating(rep, repo, "C15-R1")
-    fsrules.rule_pruning_in_place(rep, repo, "C15-R2")
-    fsrules.rule_match_sites(rep, repo, "C15-R3")
-    fsrules.rule_early_return_dominates(rep, repo, "C15-R4")
-    fsrules.rule_walk_root_absolute(rep, repo, "C15-R5")
+    with rep.isolated():
+        fsrules.rule_no_mutation_while_iterating(rep, repo, "C15-R1")
+    with rep.isolated():
+        fsrules.rule_pruning_in_place(rep, repo, "C15-R2")
+    with rep.isolated():
+        fsrules.rule_match_sites(rep, repo, "C15-R3")
+    with rep.isolated():
+        fsrules.rule_early_return_dominates(rep, repo, "C15-R4")
+    with rep.isolated():
+        fsrules.rule_walk_root_absolute(rep, repo, "C15-R5")
